@@ -1,10 +1,174 @@
-(* C10 - property theorems only. *)
-From Coq Require Import List NArith ZArith Bool.
+(* C10 - binding calls validate arguments, hand only legal sets to the OS, and
+   round-trip.  Theorems only.  In every statement W / os / heap / present are
+   universally quantified: the operating system behind the hooks is arbitrary,
+   any subset of the hooks may exist; sets range over all finite and cofinite
+   sets, flag words over all of N, policies over all of Z.
+   The live round trip on the running system is OBSERVED by checks/c10.py, not
+   proved (no model stands in for the kernel's scheduler). *)
+From Coq Require Import List NArith ZArith Bool String.
 From HV Require Import Base.BSet Gen.Tables Topo.Bind Topo.BindProofs.
 Import ListNotations.
 Local Open Scope N_scope.
+
+(* ---- the model's constants are what the CURRENT bind.c accepts (probed through every entry point) ---- *)
+Theorem allflags_are_what_every_entry_point_accepts :
+  forallb (fun e => snd e =? (if is_membind_name (fst e) then MEMBIND_ALLFLAGS else CPUBIND_ALLFLAGS)) bind_accepted_flags = true
+  /\ List.length bind_accepted_flags = 16%nat.
+Proof. exact allflags_table. Qed.
+Print Assumptions allflags_are_what_every_entry_point_accepts.
 
 Theorem policy_check_is_what_bind_c_accepts :
   forallb (fun e => forallb (fun pb => Bool.eqb (policy_ok (fst pb)) (snd pb)) (snd e)) bind_accepted_policies = true.
 Proof. exact policy_ok_table. Qed.
 Print Assumptions policy_check_is_what_bind_c_accepts.
+
+(* ---- invalid arguments never reach a binding hook: ALL entry points (allocation included), all hook configurations ---- *)
+Theorem bind_invalid_never_reaches_os :
+  forall W os heap present T a (w : W) c,
+  invalid T a = true -> In c (s_trace (snd (run W os heap present T a w))) -> is_binding_call c = false.
+Proof. exact run_invalid_no_binding. Qed.
+Print Assumptions bind_invalid_never_reaches_os.
+
+(* The statement "every entry point answers -1/EINVAL" is false on the faithful model for two documented
+   classes: hwloc_alloc_membind without STRICT allocates anyway, and a zero-length hwloc_set_area_membind
+   returns 0 before its node set is looked at. *)
+Definition T_ex : topo :=
+  TP (bs_of_N 0x0f) (bs_of_N 0xff) (bs_of_N 1) (bs_of_N 3) [(0, bs_of_N 0x0f); (1, bs_of_N 0xf0)] true.
+Definition os_ok : hcall -> unit -> hres * unit := fun _ w => (HR 0 None bs_empty 0, w).
+Definition all_present : hid -> bool := fun _ => true.
+Definition heap_ok : N -> bool := fun _ => true.
+
+Theorem bind_reject_before_os_refuted :
+  exists a, invalid T_ex a = true /\ a_rc (fst (run unit os_ok heap_ok all_present T_ex a tt)) = 0%Z.
+Proof. exists (A_set_area_membind 0 bs_empty HWLOC_MEMBIND_BIND HWLOC_MEMBIND_BYNODESET). vm_compute. auto. Qed.
+Print Assumptions bind_reject_before_os_refuted.
+
+(* ... and true everywhere else: unknown flag bit, bad policy, empty set, set outside the complete set,
+   cpuset without usable NUMA nodes => -1/EINVAL, EMPTY hook trace, OS state untouched *)
+Theorem bind_reject_before_os_partial :
+  forall W os heap present T a (w : W),
+  invalid T a = true -> api_is_alloc a = false -> area_len0_bynodeset T a = false ->
+  a_rc (fst (run W os heap present T a w)) = (-1)%Z /\ s_errno (snd (run W os heap present T a w)) = EINVAL /\
+  s_trace (snd (run W os heap present T a w)) = [] /\ s_w (snd (run W os heap present T a w)) = w.
+Proof. exact reject_result. Qed.
+Print Assumptions bind_reject_before_os_partial.
+
+Theorem bind_reject_alloc_strict :
+  forall W os heap present T len set p f (w : W),
+  invalid T (A_alloc_membind len set p f) = true -> flag HWLOC_MEMBIND_STRICT f = true ->
+  let a := A_alloc_membind len set p f in
+  a_rc (fst (run W os heap present T a w)) = 0%Z /\ s_errno (snd (run W os heap present T a w)) = EINVAL /\
+  s_trace (snd (run W os heap present T a w)) = [] /\ s_w (snd (run W os heap present T a w)) = w.
+Proof. exact reject_result_alloc. Qed.
+Print Assumptions bind_reject_alloc_strict.
+
+Example reject_nonvacuous :
+  invalid T_ex (A_set_cpubind bs_full 0) = true /\                         (* the "full" infinite set: rejected, not "unbind" *)
+  invalid T_ex (A_set_cpubind (bs_of_N 0x100) 0) = true /\
+  invalid T_ex (A_set_cpubind (bs_of_N 1) 16) = true /\
+  invalid T_ex (A_set_membind (bs_of_N 1) 6 0) = true /\
+  invalid T_ex (A_set_membind (bs_of_N 4) HWLOC_MEMBIND_BIND HWLOC_MEMBIND_BYNODESET) = true /\
+  invalid T_ex (A_set_cpubind (bs_of_N 3) HWLOC_CPUBIND_THREAD) = false.
+Proof. vm_compute. auto 10. Qed.
+
+(* ---- every set handed to a hook is non-empty and inside the complete set: ALL arguments, no hypothesis ---- *)
+Theorem bind_only_legal_sets_reach_os :
+  forall W os heap present T a (w : W) c,
+  In c (s_trace (snd (run W os heap present T a w))) -> legal_call T c = true.
+Proof. exact run_only_legal. Qed.
+Print Assumptions bind_only_legal_sets_reach_os.
+
+(* ---- a set covering the topology set reaches the hooks as the COMPLETE set ---- *)
+Theorem bind_full_becomes_complete :
+  forall W os heap present T a (w : W) c x,
+  covers_topology T a = true -> In c (s_trace (snd (run W os heap present T a w))) -> hc_set c = Some x ->
+  x = complete_of T (hid_kind (hc_id c)).
+Proof. exact run_full_complete. Qed.
+Print Assumptions bind_full_becomes_complete.
+
+Example full_becomes_complete_nonvacuous :
+  (* topology set 0x0f, complete set 0xff: binding to 0x1f reaches the thread hook as 0xff;
+     membind by cpuset 0x0f reaches it as the complete nodeset {0,1} *)
+  s_trace (snd (run unit os_ok heap_ok all_present T_ex (A_set_cpubind (bs_of_N 0x1f) HWLOC_CPUBIND_THREAD) tt))
+    = [HC H_set_thisthread_cpubind 0 (Some (bs_of_N 0xff)) 0 HWLOC_CPUBIND_THREAD 0] /\
+  s_trace (snd (run unit os_ok heap_ok all_present T_ex (A_set_membind (bs_of_N 0x0f) HWLOC_MEMBIND_BIND HWLOC_MEMBIND_THREAD) tt))
+    = [HC H_set_thisthread_membind 0 (Some (bs_of_N 3)) HWLOC_MEMBIND_BIND HWLOC_MEMBIND_THREAD 0] /\
+  covers_topology T_ex (A_set_cpubind (bs_of_N 0x1f) HWLOC_CPUBIND_THREAD) = true.
+Proof. vm_compute. auto. Qed.
+
+(* ---- no hook: -1/ENOSYS without touching the OS ---- *)
+Theorem bind_enosys_without_hook :
+  forall W os heap present T a (w : W),
+  t_thissystem T = true -> invalid T a = false -> api_is_alloc a = false ->
+  (forall h, In h (api_hooks a) -> present h = false) ->
+  match api_len a with Some l => l <> 0 | None => True end ->
+  a_rc (fst (run W os heap present T a w)) = (-1)%Z /\ s_errno (snd (run W os heap present T a w)) = ENOSYS /\
+  s_trace (snd (run W os heap present T a w)) = [] /\ s_w (snd (run W os heap present T a w)) = w.
+Proof. exact enosys_result. Qed.
+Print Assumptions bind_enosys_without_hook.
+
+Example enosys_nonvacuous :
+  (* Linux has no thisproc membind hook: PROCESS => ENOSYS; without PROCESS/THREAD the call falls back to the thread hook *)
+  let present h := linux_present h in
+  a_rc (fst (run unit os_ok heap_ok present T_ex (A_set_membind (bs_of_N 1) HWLOC_MEMBIND_BIND (HWLOC_MEMBIND_PROCESS + HWLOC_MEMBIND_BYNODESET)) tt)) = (-1)%Z /\
+  s_errno (snd (run unit os_ok heap_ok present T_ex (A_set_membind (bs_of_N 1) HWLOC_MEMBIND_BIND (HWLOC_MEMBIND_PROCESS + HWLOC_MEMBIND_BYNODESET)) tt)) = ENOSYS /\
+  List.length (s_trace (snd (run unit os_ok heap_ok present T_ex (A_set_membind (bs_of_N 1) HWLOC_MEMBIND_BIND HWLOC_MEMBIND_BYNODESET) tt))) = 1%nat.
+Proof. vm_compute. auto. Qed.
+
+(* PROCESS->THREAD fallback reads errno: a process hook failing with ENOSYS hands over to the thread hook, any other failure is final *)
+Example fallback_on_enosys_only :
+  let os_e (e : err) : hcall -> unit -> hres * unit :=
+    fun c w => match hc_id c with H_set_thisproc_cpubind => (HR (-1) (Some e) bs_empty 0, w) | _ => (HR 0 None bs_empty 0, w) end in
+  List.length (s_trace (snd (run unit (os_e ENOSYS) heap_ok all_present T_ex (A_set_cpubind (bs_of_N 1) 0) tt))) = 2%nat /\
+  a_rc (fst (run unit (os_e ENOSYS) heap_ok all_present T_ex (A_set_cpubind (bs_of_N 1) 0) tt)) = 0%Z /\
+  List.length (s_trace (snd (run unit (os_e EPERM) heap_ok all_present T_ex (A_set_cpubind (bs_of_N 1) 0) tt))) = 1%nat /\
+  a_rc (fst (run unit (os_e EPERM) heap_ok all_present T_ex (A_set_cpubind (bs_of_N 1) 0) tt)) = (-1)%Z.
+Proof. vm_compute. auto. Qed.
+
+(* ---- topologies that do not describe this system: dummy hooks ---- *)
+Theorem dummy_hooks_total :
+  forall W os heap present T (w : W),
+  t_thissystem T = false ->
+  (forall a, s_trace (snd (run W os heap present T a w)) = [] /\ s_w (snd (run W os heap present T a w)) = w) /\
+  (forall a, invalid T a = false -> api_is_alloc a = false -> api_set a <> None -> a_rc (fst (run W os heap present T a w)) = 0%Z) /\
+  (forall a, bad_flags a = false -> api_set a = None -> match api_len a with Some l => l <> 0 | None => True end ->
+     a_rc (fst (run W os heap present T a w)) = 0%Z /\ a_set (fst (run W os heap present T a w)) = Some (whole_machine T a) /\
+     match a with A_get_membind _ | A_get_proc_membind _ _ | A_get_area_membind _ _ => a_policy (fst (run W os heap present T a w)) = Some HWLOC_MEMBIND_MIXED | _ => True end).
+Proof.
+  intros W os heap present T w H. split; [|split].
+  - intros a. now apply dummy_untouched.
+  - intros a. now apply dummy_set_result.
+  - intros a. now apply dummy_get_result.
+Qed.
+Print Assumptions dummy_hooks_total.
+
+Example dummy_nonvacuous :
+  let T := TP (bs_of_N 0x0f) (bs_of_N 0xff) (bs_of_N 1) (bs_of_N 3) [(0, bs_of_N 0x0f); (1, bs_of_N 0xf0)] false in
+  let os_bad : hcall -> unit -> hres * unit := fun _ w => (HR (-1) (Some EPERM) bs_full 7, w) in
+  a_set (fst (run unit os_bad heap_ok (fun _ => false) T (A_get_cpubind 0) tt)) = Some (bs_of_N 0xff) /\
+  a_set (fst (run unit os_bad heap_ok (fun _ => false) T (A_get_membind 0) tt)) = Some (bs_of_N 0xff) /\
+  a_rc (fst (run unit os_bad heap_ok (fun _ => false) T (A_set_cpubind (bs_of_N 2) 0) tt)) = 0%Z.
+Proof. vm_compute. auto. Qed.
+
+(* which topologies get the dummy hooks: hwloc_backends_is_thissystem *)
+Theorem foreign_topology_not_thissystem :
+  forall backends, (exists b, In b backends /\ bk_is_thissystem b <> (-1)%Z) -> backends_is_thissystem backends false None = false.
+Proof. exact foreign_backend_not_thissystem. Qed.
+Print Assumptions foreign_topology_not_thissystem.
+Theorem is_thissystem_flag_and_env :
+  (forall backends, (forall b, In b backends -> bk_envvar_forced b = false) -> backends_is_thissystem backends true None = true) /\
+  (forall backends fl v, backends_is_thissystem backends fl (Some v) = negb (v =? 0)%Z).
+Proof. split; [exact flag_makes_thissystem|exact env_overrides_thissystem]. Qed.
+Print Assumptions is_thissystem_flag_and_env.
+Example xml_backend_is_foreign : backends_is_thissystem [BK false 0] false None = false /\ backends_is_thissystem [BK false 0] true None = true.
+Proof. vm_compute. auto. Qed.
+
+(* ---- x86 discovery restores the binding (against an idealised affinity model; the real kernel is observed live) ---- *)
+Theorem x86_restores_binding :
+  forall allowed restrict_set nbprocs cur,
+  bs_subset cur allowed = true -> bs_is_empty cur = false -> fst (x86_look_procs allowed restrict_set nbprocs cur) = cur.
+Proof. exact x86_restores. Qed.
+Print Assumptions x86_restores_binding.
+Example x86_nonvacuous :
+  x86_look_procs (bs_of_N 0xf0) None 8 (bs_of_N 0x30) = (bs_of_N 0x30, [4; 5; 6; 7]).
+Proof. vm_compute. reflexivity. Qed.
